@@ -536,7 +536,7 @@ func calleeName(c *ssa.CallCommon) string {
 		return "invoke " + types.TypeString(c.Value.Type(), shortQual) + "." + c.Method.Name()
 	}
 	if f := c.StaticCallee(); f != nil {
-		return f.String()
+		return funcName(f)
 	}
 	if b, ok := c.Value.(*ssa.Builtin); ok {
 		return "builtin." + b.Name()
